@@ -199,6 +199,101 @@ fn hint(h: (usize, Option<usize>)) -> String {
     }
 }
 
+/// `frame.adapt <fields> <binary> <getkeys>`: after the `get`s (which leave holes), every iterator
+/// adaptor that an implementation may override (`nth`, `nth_back`, `skip`, `step_by`, `count`,
+/// `last`, `rev`) must agree with plain `next()` / `next_back()` loops — which are
+/// what the `it:` / `into:` ops compare with the model. Output `ok` or the first inconsistency.
+fn exec_adapt(op: &[&str]) -> String {
+    let fields = parse_fields(op[1]);
+    let binary = if op[2] == "none" { None } else { Some(unhex(op[2])) };
+    let resp = receive(&frame_wire(&fields, binary.as_deref()));
+    let mut frame = match resp.into_single_frame() {
+        Ok(f) => f,
+        Err(_) => return "noframe".into(),
+    };
+    if op[3] != "_" {
+        for k in op[3].split(',') {
+            let key = String::from_utf8(unhex(k)).unwrap();
+            let _ = frame.get(&key);
+        }
+    }
+    let pairs = |f: &Frame| -> Vec<(String, String)> {
+        let mut it = f.fields();
+        let mut v = Vec::new();
+        while let Some((k, x)) = it.next() {
+            v.push((k.to_string(), x.to_string()));
+        }
+        v
+    };
+    let base = pairs(&frame);
+    let n = base.len();
+    let own = |x: Option<(&str, &str)>| x.map(|(a, b)| (a.to_string(), b.to_string()));
+    for k in 0..=n + 1 {
+        if own(frame.fields().nth(k)) != base.get(k).cloned() {
+            return format!("diff:fields.nth({k})");
+        }
+        if own(frame.fields().nth_back(k)) != base.iter().rev().nth(k).cloned() {
+            return format!("diff:fields.nth_back({k})");
+        }
+        let sk: Vec<_> = frame.fields().skip(k).map(|(a, b)| (a.to_string(), b.to_string())).collect();
+        if sk != base.iter().skip(k).cloned().collect::<Vec<_>>() {
+            return format!("diff:fields.skip({k})");
+        }
+        // nth leaves the iterator positioned after the k-th pair
+        let mut it = frame.fields();
+        let _ = it.nth(k);
+        let rest: Vec<_> = it.map(|(a, b)| (a.to_string(), b.to_string())).collect();
+        if rest != base.iter().skip(k + 1).cloned().collect::<Vec<_>>() {
+            return format!("diff:fields.after-nth({k})");
+        }
+        let mut it = frame.clone().into_iter();
+        let got = it.nth(k).map(|(a, b)| (a.to_string(), b));
+        if got != base.get(k).cloned() {
+            return format!("diff:into_iter.nth({k})");
+        }
+        let rest: Vec<_> = it.map(|(a, b)| (a.to_string(), b)).collect();
+        if rest != base.iter().skip(k + 1).cloned().collect::<Vec<_>>() {
+            return format!("diff:into_iter.after-nth({k})");
+        }
+        let got = frame.clone().into_iter().nth_back(k).map(|(a, b)| (a.to_string(), b));
+        if got != base.iter().rev().nth(k).cloned() {
+            return format!("diff:into_iter.nth_back({k})");
+        }
+    }
+    for st in 1..=3usize {
+        let sb: Vec<_> = frame.fields().step_by(st).map(|(a, b)| (a.to_string(), b.to_string())).collect();
+        if sb != base.iter().step_by(st).cloned().collect::<Vec<_>>() {
+            return format!("diff:fields.step_by({st})");
+        }
+        let sb: Vec<_> = frame.clone().into_iter().step_by(st).map(|(a, b)| (a.to_string(), b)).collect();
+        if sb != base.iter().step_by(st).cloned().collect::<Vec<_>>() {
+            return format!("diff:into_iter.step_by({st})");
+        }
+    }
+    if frame.fields().count() != n || frame.clone().into_iter().count() != n {
+        return "diff:count".into();
+    }
+    if own(frame.fields().last()) != base.last().cloned() {
+        return "diff:fields.last".into();
+    }
+    if frame.clone().into_iter().last().map(|(a, b)| (a.to_string(), b)) != base.last().cloned() {
+        return "diff:into_iter.last".into();
+    }
+    let rv: Vec<_> = frame.fields().rev().map(|(a, b)| (a.to_string(), b.to_string())).collect();
+    if rv != base.iter().rev().cloned().collect::<Vec<_>>() {
+        return "diff:fields.rev".into();
+    }
+    // (the field iterators promise no exact size_hint — only that it is a valid bound)
+    let (lo, hi) = frame.fields().size_hint();
+    if lo > n || hi.map_or(false, |h| h < n) {
+        return "diff:size_hint-not-a-bound".into();
+    }
+    if frame.fields_len() != n {
+        return "diff:fields_len".into();
+    }
+    "ok".into()
+}
+
 fn exec_resp(op: &[&str]) -> String {
     let n: usize = op[1].parse().expect("nframes");
     let haserr = op[2] == "1";
@@ -245,6 +340,7 @@ pub fn exec(op: &[&str]) -> String {
     match op[0] {
         "frame.ops" if op.len() == 4 => exec_frame(op),
         "resp.ops" if op.len() == 4 || op.len() == 5 => exec_resp(op),
+        "frame.adapt" if op.len() == 4 => exec_adapt(op),
         _ => "badop".into(),
     }
 }
@@ -440,6 +536,10 @@ pub fn gen(cfg: &Cfg) -> Vec<String> {
         let binary = gen_binary(&mut r);
         let o = gen_ops(&mut r, &fields);
         ops.push(format!("frame.ops {} {} {}", fields_str(&fields), bin_str(&binary), ops_str(&o)));
+        // iterator adaptors after some `get`s
+        let ng = r.below(4);
+        let keys: Vec<String> = (0..ng).map(|_| hex(gen_key(&mut r, &fields).as_bytes())).collect();
+        ops.push(format!("frame.adapt {} {} {}", fields_str(&fields), bin_str(&binary), if keys.is_empty() { "_".to_string() } else { keys.join(",") }));
     }
 
     // responses: every (n, haserr) × every pattern up to a length beyond the item count
